@@ -54,6 +54,7 @@ Structured(m, own) ==
   {b, b \o b, b \o own, own \o b, b \o <<0>>, <<0>> \o b, SubSeq(b, 1, Len(b) - 1), own,
    GEnc(G1, GIdentity(G1)), GEnc(G1, GBase(G1)), GEnc(G1, PSA.M), GEnc(G1, PSA.N), GEnc(G1, PSA.S)}
 PeerSide(cls) == IF cls = "A" THEN 66 ELSE IF cls = "B" THEN 65 ELSE 83
+SideSample == {0, 65, 66, 83, 97, 98, 115, 67, 255}      \* two-sided runs: a sample of altered side bytes (one-sided: all 255)
 
 TamperNext ==
   \/ /\ Len(st) = 0
@@ -67,12 +68,13 @@ TamperNext ==
   \/ /\ Len(st) = 2 /\ st[2].started /\ aux[1].nfin = 0 /\ aux[2].nfin = 0
      /\ \/ Finish(1, SentBy(2))
         \/ TAMPER = "one" /\ \E b \in AllShort(0) : Finish(1, <<PeerSide(CA)>> \o b)
-        \/ TAMPER \in {"one", "two"} /\ \E sb \in 0..255 : sb # PeerSide(CA) /\ Finish(1, <<sb>> \o Tail(SentBy(2)))   \* altered side byte
+        \/ TAMPER \in {"one", "two"} /\ \E sb \in (IF TAMPER = "one" THEN 0..255 ELSE SideSample) :
+              sb # PeerSide(CA) /\ Finish(1, <<sb>> \o Tail(SentBy(2)))                     \* altered side byte
         \/ TAMPER = "two" /\ \E b \in Structured(SentBy(2), st[1].out) : Finish(1, <<PeerSide(CA)>> \o b)
   \/ /\ Len(st) = 2 /\ aux[1].nfin = 1 /\ aux[2].nfin = 0
      /\ \/ Finish(2, SentBy(1))
         \/ TAMPER = "two" /\ \E b \in Structured(SentBy(1), st[2].out) : Finish(2, <<PeerSide(CB)>> \o b)
-        \/ TAMPER = "two" /\ \E sb \in 0..255 : sb # PeerSide(CB) /\ Finish(2, <<sb>> \o Tail(SentBy(1)))
+        \/ TAMPER = "two" /\ \E sb \in SideSample : sb # PeerSide(CB) /\ Finish(2, <<sb>> \o Tail(SentBy(1)))
         \/ TAMPER = "one" /\ aux[1].arg1 = SentBy(2) /\ \E b \in AllShort(0) : Finish(2, <<PeerSide(CB)>> \o b)
 TamperSpec == Init /\ [][TamperNext]_vars
 
